@@ -31,6 +31,10 @@ def jobs(tier, seed):
             out.append({'name': 'trim-%dx%d-%s' % (shp[0], shp[1], mode), 'fn': 'trim', 'shape': list(shp), 'mode': mode, 'dtype': 'float64'})
         for mode in ('one', 'two'):
             out.append({'name': 'crop-%dx%d-%s' % (shp[0], shp[1], mode), 'fn': 'crop', 'shape': list(shp), 'mode': mode, 'dtype': 'float64'})
+    # integer rasters with exclusion values / zone ids the raster dtype cannot represent (fractional, out of range): they match no cell
+    out.append({'name': 'trim-2x3-int32-fractional-exclude', 'fn': 'trim', 'shape': [2, 3], 'mode': 'one', 'dtype': 'int32', 'real_entries': True})
+    out.append({'name': 'trim-2x2-uint8-out-of-range-exclude', 'fn': 'trim', 'shape': [2, 2], 'mode': 'one', 'dtype': 'uint8', 'real_entries': True, 'lo': 253, 'hi': 255, 'elo': -3, 'ehi': 258})
+    out.append({'name': 'crop-2x3-int32-fractional-ids', 'fn': 'crop', 'shape': [2, 3], 'mode': 'one', 'dtype': 'int32', 'real_entries': True})
     if tier != 'quick':
         out.append({'name': 'trim-3x3-int', 'fn': 'trim', 'shape': [3, 3], 'mode': 'one', 'dtype': 'int32'})
         out.append({'name': 'crop-3x3-int', 'fn': 'crop', 'shape': [3, 3], 'mode': 'two', 'dtype': 'int32'})
@@ -45,14 +49,16 @@ def _with_band(r):
 def body(ctx, job):
     h, w = job['shape']
     dt = job['dtype']
-    isint = dt.startswith('int')
-    data = ctx.array('d', (h, w), dt, nan=not isint, lo=-5 if isint else None, hi=5 if isint else None)
+    isint = dt[0] in 'iu'
+    data = ctx.array('d', (h, w), dt, nan=not isint, lo=job.get('lo', -5) if isint else None, hi=job.get('hi', 5) if isint else None)
     ys = coords_affine(h, 10.0 + h, -1.0)
     xs = coords_affine(w, 100.0, 2.0)
     attrs = {'res': (2.0, 1.0), 'units': 'km'}
     mode = job['mode']
 
     def sym_entry(name):
+        if isint and job.get('real_entries'):
+            return ctx.real(name, lo=job.get('elo', -6), hi=job.get('ehi', 6))
         return ctx.integer(name, -5, 5) if isint else ctx.real(name)
 
     nan_listed = False
